@@ -382,7 +382,18 @@ class BaseSubscription:
                 matched.add(event.created_at < query.until)
             if query.tags:
                 for tagname, values in query.tags:
-                    matched.add(all(event.has_tag(tagname, values)))
+                    # a tag value that is not a string (an array, an object) matches nothing;
+                    # it must not keep the event's other tags from being matched
+                    matched.add(
+                        any(
+                            len(tag) > 1
+                            and tag[0] == tagname
+                            and isinstance(tag[1], str)
+                            and bool(tag[1])
+                            and tag[1] in values
+                            for tag in event.tags
+                        )
+                    )
             if matched and all(matched):
                 return True
         return False
